@@ -76,11 +76,17 @@ def sync_run(prop, tier, seed, kinds, replay_path):
         c.log("  tlc sync %s: %d distinct states %.1fs" % (tag, r.distinct, r.wall))
         runs.append(r)
     n_each = 500 if tier == "quick" else 6000
-    for tag, consts in families(tier, F):
-        out, n, r = fs.generate(prop + tag, consts, sample=n_each, rng=rng)
-        runs.append(r)
-        gen[tag] = {"behaviours": n, "scenario": consts["Scenario"]}
-        aggs.append(fc.replay(rigbin, out, seed, op="sync", nproc=c.NCPU))
+    # generation (TLC, a few workers each) of the families runs three at a time; replays follow one after the other
+    from concurrent.futures import ThreadPoolExecutor
+    fams = families(tier, F)
+    seeds = [rng.randrange(1 << 30) for _ in fams]
+    with ThreadPoolExecutor(max_workers=3) as ex:
+        futs = [ex.submit(fs.generate, prop + tag, consts, n_each, random.Random(sd)) for (tag, consts), sd in zip(fams, seeds)]
+        for (tag, consts), fu in zip(fams, futs):
+            out, n, r = fu.result()
+            runs.append(r)
+            gen[tag] = {"behaviours": n, "scenario": consts["Scenario"]}
+            aggs.append(fc.replay(rigbin, out, seed, op="sync", nproc=c.NCPU))
     # the experimental engine (SyncExp.tla): exhaustive bounded check, then every lock-step behaviour (sampled) on the real Peer
     chainbin = fc.build()
     xn = 1500 if tier == "quick" else 20000
@@ -134,6 +140,10 @@ def verdict(prop, agg, runs, kinds, listed, gen):
             known.append("%s [witnessed in %d replayed behaviours, on the specification AND on the real engine]" % (f["what"], n))
     if drift:
         notes.append("model drift: in %d behaviours the engine asked/answered differently from Sync.tla without affecting the outcome checked here (see evidence)" % st.get("drifted-behaviours", drift))
+    if st.get("inconclusive-behaviours", 0) > max(5, agg["behaviours"] // 50):
+        raise c.Infra("the machine was too busy: %d of %d behaviours had a synchronisation barrier time out" % (st["inconclusive-behaviours"], agg["behaviours"]))
+    if st.get("inconclusive-behaviours", 0):
+        notes.append("%d behaviours were discarded because a synchronisation barrier timed out (busy machine)" % st["inconclusive-behaviours"])
     if st.get("outcomes", 0) == 0 and gen:
         raise c.Infra("vacuous run: no outcome was compared: %s" % dict(st))
     cov = {"states": sum(r.distinct for r in runs), "transitions": sum(r.generated for r in runs), "traces_validated_against_impl": agg["behaviours"],
@@ -154,6 +164,37 @@ def _s(x):
         return v
     except Exception:
         return x[:1500]
+
+
+def serve_run(tier, seed):
+    """C13 at the protocol level: the service as a SERVER of headers (serverpeer.OnGetHeaders) on the legacy rig."""
+    rigbin = build_rig()
+    listed = {f["deviation"]: f for f in c.findings_for("C06") + c.findings_for("C07") if f.get("deviation")}
+    F = tuple(sorted(listed))
+    aggs, states, total = [], 0, 0
+    for tag, consts in [("a", fs.sync_consts(4, F=2, ForkAt=1, CpHs=(2,), Cap=3, Peers=(1,), MaxConnects=2, MaxEnv=5, MaxAsks=2, Findings=F, Emit="paths",
+                                             Scenario="a node asks the service for headers, one checkpoint (before and after the service is current)")),
+                        ("b", fs.sync_consts(3, F=2, ForkAt=1, CpHs=(), Cap=3, Peers=(1, 2), MaxEnv=4, MaxAsks=1, Findings=F, Emit="paths",
+                                             Scenario="two nodes, no checkpoints: one asks the service for headers"))]:
+        out, n, r = fs.generate("C13srv" + tag, consts, rng=random.Random(seed))
+        # keep every behaviour in which a request is answered, and as many of the others
+        ans, oth = [], []
+        for line in open(out):
+            (ans if '"sent":true' in line else oth).append(line)
+        rr = random.Random(seed)
+        rr.shuffle(ans)
+        rr.shuffle(oth)
+        cap = 400 if tier == "quick" else 4000
+        keep = ans[:cap] + oth[:min(len(oth), cap // 2)]
+        with open(out, "w") as fo:
+            fo.writelines(keep)
+        aggs.append(fc.replay(rigbin, out, seed, op="sync", nproc=c.NCPU))
+        states += r.distinct
+        total += len(keep)
+    agg = merge(aggs)
+    r = type("R", (), {"distinct": states})()
+    n = total
+    return agg, r, n
 
 
 def c06(tier, seed, replay_path=None):
